@@ -82,7 +82,7 @@ PROPS["C12"] = {"components": ["outage"], "monitor_props": ["C12"], "trusted_bas
     "assumptions": ["granularity: one RPC attempt, one block delivery, one poll are the atomic steps of the model; the condition variable is handled by the scheduler (a wait ends only after a notify)"],
     "partial": "the full statement is false of the code on the block-processing path and on the request path when a block is mined during the outage (negative theorems + known findings); proved: no submission dropped, 503 iff flag down, request-path recovery without a mined block, partial progress kept. Real time (poll period) is not modelled."}
 
-PROPS["C03"] = {"components": ["crash"], "monitor_props": ["C03"], "trusted_base": TB_TOWER + [
+PROPS["C03"] = {"components": ["crash", "tower"], "monitor_props": ["C03"], "trusted_base": TB_TOWER + [
         "hooks H2/H3: crash points before/after every durable statement and transaction commit; the harness unwinds there, drops every object and re-bootstraps from the file through the real code",
         "sqlite's atomic commit and foreign-key enforcement are trusted (exercised on real files); a crash is modelled as 'a prefix of the committed writes survives'",
         "the simulated block source for the catch-up"],
